@@ -15,7 +15,7 @@ from gradesim.worlds import c02, c11, c17
 MIXED = {
     'prop': 'C01', 'name': 'c01-mixed',
     'kinds': {'string': 2, 'formula': 3, 'numerical': 1.5, 'matrix': 2.5, 'simitem': 2,
-              'singlelist': 3, 'interval': 2, 'sum': 1, 'list': 4},
+              'singlelist': 3, 'interval': 2, 'sum': 1, 'list': 4, 'integral': 0.4},
     'n_tenants': (1, 5),
     'len': {'quick': (2, 30), 'thorough': (2, 60)},
     'runs': {'quick': 3200, 'thorough': 50000},
